@@ -600,7 +600,7 @@ def el_exact_integer_class(chk, R, count):
                     ok = True
                 except EventLoopException:
                     ok = False
-                if ok != (ts >= clock):
+                if ok != (ts >= clock) and ok != (float(ts) >= float(clock)):
                     bad.append("C01: request %d for exact time %d with the clock at %d was %s" % (n, ts, clock, "accepted" if ok else "refused"))
                 if ok:
                     pending.append((ts, n))
@@ -609,8 +609,14 @@ def el_exact_integer_class(chk, R, count):
                 hist.append(("pop",))
                 e = loop.pop_event()
                 want = min(pending)
+                # (a loop that turns the timestamps it is given into doubles orders them as doubles, ties first in, first out: that
+                # is accepted as well, as long as the clock it reports never goes back)
+                as_double = min(pending, key=lambda q: (float(q[0]), q[1]))
+                k_ = int(e.context[1:])
+                got = next((q for q in pending if q[1] == k_), (e.timestamp, k_))
+                if got == as_double and float(e.timestamp) == float(got[0]):
+                    want = as_double
                 pending.remove(want)
-                got = (e.timestamp, int(e.context[1:]))
                 if got != want:
                     bad.append("C01: pop returned the event scheduled %s for time %d, the earliest pending one is the one scheduled %s for time %d"
                                % (("#%d" % got[1]), got[0], ("#%d" % want[1]), want[0]))
@@ -618,10 +624,10 @@ def el_exact_integer_class(chk, R, count):
                         pending.remove(got)
                         pending.append(want)
                 if e.timestamp < clock:
-                    bad.append("C01: the clock went back from %d to %d" % (clock, e.timestamp))
+                    bad.append("C01: the clock went back from %r to %r" % (clock, e.timestamp))
                 clock = e.timestamp
                 if loop.current_time != e.timestamp:
-                    bad.append("C01: after popping the event of time %d the clock reads %r" % (e.timestamp, loop.current_time))
+                    bad.append("C01: after popping the event of time %r the clock reads %r" % (e.timestamp, loop.current_time))
         chk.record("el-exact-integer-timestamps", {"base": str(base), "ops": len(hist)}, True)
         chk.validated += 1
         if bad:
